@@ -10,6 +10,22 @@ def optN : Option Nat → String
   | none => "-1"
 
 /-- every page of every chunk stored in this file, with its row-group and column index -/
+def chunkEncMeta (file : Array Nat) : Except String (List String) := do
+  let (fmd, _, _) ← footerOf file false
+  let mut out : List String := []
+  let mut ri := 0
+  for rg in listField fmd 4 do
+    let mut ci := 0
+    for c in listField rg 1 do
+      let cm ← parseChunk c
+      let st := match cm.encStats with
+        | some l => showList (l.map fun (x : Nat × Nat × Nat) => s!"[{x.1},{x.2.1},{x.2.2}]")
+        | none => "-1"
+      out := out ++ [s!"[{ri},{ci},{showNats cm.encodings},{st}]"]
+      ci := ci + 1
+    ri := ri + 1
+  pure out
+
 def pageMap (file : Array Nat) : Except String (List (Nat × Nat × PageInfo × Nat)) := do
   let (fmd, _, _) ← footerOf file false
   let mut out : List (Nat × Nat × PageInfo × Nat) := []
@@ -40,11 +56,13 @@ def handleWPage (op : String) (a : Args) : String :=
             (if c.dictItem.isSome then pages.flatten.map (fun x => match x with | .int i => cats.getD i Cell.null | y => y) else pages.flatten)
             ∧ acc.loose = 0 then "same" else "differs"
       | .error e => "error:" ++ e.replace " " "_"
-    "ok back=" ++ back ++ " pages=" ++ showList (out.map fun (p, body) =>
+    "ok back=" ++ back ++ s!" encodings={showNats (writerEncodings c)} stats={showList ((writerEncStats c pages.length).map fun (x : Nat × Nat × Nat) => s!"[{x.1},{x.2.1},{x.2.2}]")}"
+      ++ s!" metaok={if (encodingsProblem (writerEncodings c) (some (writerEncStats c pages.length)) (out.map fun (p, _) => (p.ptypeTag, p.encoding))).isNone then 1 else 0}"
+      ++ " pages=" ++ showList (out.map fun (p, body) =>
       s!"[{p.ptypeTag},{p.numValues},{p.encoding},{optN p.numNulls},{optN p.numRows},{p.defLen},{toHex body}]")
   | "pagemap" =>
     match pageMap (a.bytes "bytes").toArray with
-    | .ok ps => "ok pages=" ++ showList (ps.map fun (ri, ci, p, codec) =>
+    | .ok ps => "ok chunks=" ++ (match chunkEncMeta (a.bytes "bytes").toArray with | .ok l => showList l | .error _ => "[]") ++ " pages=" ++ showList (ps.map fun (ri, ci, p, codec) =>
         s!"[{ri},{ci},{p.ptypeTag},{p.numValues},{p.encoding},{optN p.numNulls},{optN p.numRows},{p.defLen},{p.dataOff},{p.compSize},{p.uncompSize},{codec},{if p.isCompressed then 1 else 0}]")
     | .error e => s!"err invalid {e.replace " " "_"}"
   | _ => s!"err unknown-op wpage {op}"
